@@ -22,7 +22,7 @@ func init() {
 // C15 — zhttp picks the documented source and reports undecodable requests as one issue.
 
 func C15_Jobs() []string {
-	return []string{"dispatch", "dispatch-real/json", "dispatch-real/form", "dispatch-real/query", "bad-json", "bad-form", "empty-object", "query-values", "form-values", "ptr-dest"}
+	return []string{"dispatch", "dispatch-real/json", "dispatch-real/form", "dispatch-real/query", "bad-json", "bad-form", "empty-object", "query-values", "form-values", "ptr-dest", "content-length"}
 }
 func C15_Covers() []string { return []string{"json", "form", "query", "decode-failure"} }
 
@@ -137,6 +137,21 @@ func C15_Run(job string) {
 		v.Assert(n == 1 && len(errs["$root"]) == 1 && errs["$root"][0].Code == code, "C15:decode-failure-not-exactly-one-top-level-issue")
 		v.Assert(ran == 0, "C15:schema-ran-after-decode-failure")
 		v.Assert(d.A == 42 && d.Name == "keep", "C15:destination-written-after-decode-failure")
+	case "content-length":
+		// the body is the document, whatever length the request declares: unknown (-1, chunked
+		// transfer), exact, or left at zero by a hand-built request
+		body := `{"a":5,"name":"n","tags":["x"]}`
+		front := v.Choice("front", 2)
+		if front == 1 {
+			body = "a=5&name=n&tags=x"
+		}
+		req := c11Request("POST", []string{"application/json", "application/x-www-form-urlencoded"}[front], body, "")
+		req.ContentLength = []int64{-1, int64(len(body)), 0}[v.Choice("declared", 3)]
+		var d c15Dest
+		errs := z.Struct(z.Schema{"a": z.Int().Required(), "name": z.String().Required(), "tags": z.Slice(z.String())}).Parse(zhttp.Request(req), &d)
+		v.Cover([]string{"json", "form"}[front])
+		v.Assert(errs == nil, "C15:unexpected-issues")
+		v.Assert(d.A == 5 && d.Name == "n" && len(d.Tags) == 1, "C15:wrong-source-read")
 	case "ptr-dest":
 		// the same request parsed into a pointer destination through Ptr(Struct): one decode, same record
 		front := []string{"json", "form", "query"}[v.Choice("front", 3)]
